@@ -6,9 +6,9 @@
    The convergence step (a successful Repair leaves Verify clean and a further Repair idle) is proved for
    PAR2 under the archive's self-consistency premise - the local MD5 collision-freeness premise, stated as
    "any content with a file's recorded hashes and length has that file's slice checksum list" - which is an
-   explicit hypothesis of the theorem; for PAR1 that step is decided by the closure exploration only. *)
+   explicit hypothesis of the theorem; for PAR1 it is proved without such a premise (Proofs/Par1Clean.v). *)
 From Gopar Require Import Model.Base Model.CRC Model.GoPath Model.FS Model.Par2 Model.Par1 Model.History
-     Proofs.Par2Facts Proofs.Par1Facts Proofs.HistoryFacts Proofs.Par2Clean Proofs.Par2Converge.
+     Proofs.Par2Facts Proofs.Par1Facts Proofs.HistoryFacts Proofs.Par2Clean Proofs.Par2Converge Proofs.Par1Clean.
 Open Scope N_scope.
 
 (* Verify never changes the state; a history of Verifies is the identity *)
@@ -81,3 +81,26 @@ Proof.
   exact (repair_idle_when_all_ok md5 ix dbl fs ds st1 r rp st' HL (clean_counts_all_ok ds Hc) HR).
 Qed.
 Print Assumptions C14_idle_on_clean.
+
+(* CONVERGENCE STEP (PAR1), for every archive state: a successful Repair leaves a state in which Verify - with
+   or without the full parity check - counts no unusable file, and ANY further Repair rewrites nothing.
+   Premises: distinct target paths; no saved file's path is the index or one of the volume paths the loader
+   reads (.p01 .. .pNN) - that no written path lies BELOW a volume path is proved, not assumed *)
+Theorem C14_par1_success_then_clean_and_idle : forall md5 ix dbl fs rp st' s st1 all,
+  par1_repair md5 ix dbl (io_init fs []) = ((Ok tt, rp), st') ->
+  p1_load md5 ix (io_init fs []) = (Ok s, st1) ->
+  NoDup (map (fun e => join2 (dir ix) (e_name e)) (s_saved s)) ->
+  (forall e, In e (s_saved s) ->
+     join2 (dir ix) (e_name e) <> ix /\
+     forall k, 0 < k <= N.min (256 - v_count (s_vol s)) 99 -> join2 (dir ix) (e_name e) <> volume_path ix k) ->
+  exists c ok st2, par1_verify md5 ix all (io_init (io_fs st') []) = (Ok (c, ok), st2) /\ fc_unusable c = 0%nat /\
+    forall dbl2 r2 rp2 st3, par1_repair md5 ix dbl2 (io_init (io_fs st') []) = ((r2, rp2), st3) ->
+      rp2 = [] /\ io_fs st3 = io_fs st'.
+Proof. exact par1_repair_ok_then_clean_and_idle. Qed.
+Print Assumptions C14_par1_success_then_clean_and_idle.
+
+Theorem C14_par1_idle_on_clean : forall md5 ix dbl fs s st1 r rp st',
+  p1_load md5 ix (io_init fs []) = (Ok s, st1) -> fc_unusable (file_counts s) = 0%nat ->
+  par1_repair md5 ix dbl (io_init fs []) = ((r, rp), st') -> rp = [] /\ io_fs st' = fs.
+Proof. exact par1_idle_on_clean. Qed.
+Print Assumptions C14_par1_idle_on_clean.
